@@ -57,7 +57,7 @@ def install (limit : Nat) (h : HookSpec) (force : Bool) (file : Option Bytes) : 
 /-- Hook.Uninstall: result file and whether an error stopped the command -/
 def uninstall (limit : Nat) (h : HookSpec) (file : Option Bytes) : Option Bytes × Bool :=
   match file with
-  | none => (none, true)                    -- os.Open fails: reported, the loop stops
+  | none => (none, false)                   -- no such hook: nothing to remove, the loop goes on (D76)
   | some f => match matchFile limit h f with
     | .foreign => (some f, true)
     | _ => (none, false)
